@@ -33,6 +33,8 @@ func init() {
 				Edits: []Edit{{File: "util/strings.go", Old: "func StringContainsAnySubStrs(s string, l []string) string {\n\tfor _, ss := range l {\n", New: "func StringContainsAnySubStrs(s string, l []string) string {\n\tfor _, ss := range l {\n\t\tif len(ss) > len(s) {\n\t\t\tbreak\n\t\t}\n\n"}}},
 			{ID: "C13-network-drops-options", Desc: "network SendCommand forwards no per-operation options to the generic driver", Rule: "C13/opts-forwarded",
 				Edits: []Edit{{File: "driver/network/sendcommand.go", Old: "return d.Driver.SendCommand(command, opts...)", New: "return d.Driver.SendCommand(command)"}}},
+			{ID: "C13-shared-default-operation", Desc: "NewOperation returns a shared default object when no options are given", Rule: "C13/fresh-operation",
+				Edits: []Edit{{File: "driver/generic/operation.go", Old: "func NewOperation(options ...util.Option) (*OperationOptions, error) {\n", New: "var defaultOperation = &OperationOptions{FailedWhenContains: []string{}}\n\nfunc NewOperation(options ...util.Option) (*OperationOptions, error) {\n\tif len(options) == 0 {\n\t\treturn defaultOperation, nil\n\t}\n\n"}}},
 			{ID: "C13-mark-on-empty", Desc: "response marked failed when nothing matched", Rule: "C13/mark",
 				Edits: []Edit{{File: "response/response.go", Old: "\tif s != \"\" {", New: "\tif s == \"\" {"}}},
 			{ID: "C13-aggregate-first-only", Desc: "aggregate records only the first failed member", Rule: "C13/aggregate",
@@ -52,6 +54,8 @@ func init() {
 }
 
 func runC13(c *Ctx, r *Report) {
+	r.Rule("C13/fresh-operation", "generic.NewOperation and network.NewOperation hand every caller a freshly allocated options object", 2)
+	checkFreshOperation(c, r, "C13/fresh-operation", []string{"driver/generic", "driver/network"})
 	r.Rule("C13/precedence", "the driver failure list is used exactly when the operation list is empty, and that list is given to NewResponse", 6)
 	r.Rule("C13/mark", "Record marks failed exactly on a non-empty match of the recorded output; the scan helper returns the first contained string and tests every element until a match", 4)
 	r.Rule("C13/op-options-applied", "generic.NewOperation applies the full per-operation option list (stop-on-failed, failure strings) in order", 1)
